@@ -39,10 +39,43 @@ type c16Config struct {
 	ReadStyle  int // 0 ReadFull(5)+ReadFull(n), 1 one byte at a time, 2 32 KiB buffer
 	HandlerFl  bool
 	SplitWrite bool // envelope and payload in separate Write calls
+	// Wrapped: ServeHTTP is handed a middleware's ResponseWriter that buffers Write calls
+	// until its own Flush (and at the end), and offers Unwrap() to the server's writer. What
+	// the transcoder flushes must be the writer it was given.
+	Wrapped bool
 }
 
+// c16BufferingWriter is such a middleware writer.
+type c16BufferingWriter struct {
+	inner   *drive.Recorder
+	pending []byte
+	code    int
+}
+
+func (b *c16BufferingWriter) Header() http.Header  { return b.inner.Header() }
+func (b *c16BufferingWriter) WriteHeader(code int) { b.code = code }
+func (b *c16BufferingWriter) Write(p []byte) (int, error) {
+	if b.code == 0 {
+		b.code = 200
+	}
+	b.pending = append(b.pending, p...)
+	return len(p), nil
+}
+func (b *c16BufferingWriter) Flush() {
+	if b.code != 0 && b.code != -1 {
+		b.inner.WriteHeader(b.code)
+		b.code = -1
+	}
+	if len(b.pending) > 0 {
+		_, _ = b.inner.Write(b.pending)
+		b.pending = nil
+	}
+	b.inner.Flush()
+}
+func (b *c16BufferingWriter) Unwrap() http.ResponseWriter { return b.inner }
+
 func (k c16Config) String() string {
-	return fmt.Sprintf("%s/%s/%s>%s/%s/%v rounds=%d size=%d read=%d flush=%v split=%v", k.Client, k.ClientCod, k.ClientComp, k.Target, k.TargetCod, k.TargetComp, k.Rounds, k.Size, k.ReadStyle, k.HandlerFl, k.SplitWrite)
+	return fmt.Sprintf("%s/%s/%s>%s/%s/%v rounds=%d size=%d read=%d flush=%v split=%v wrapped=%v", k.Client, k.ClientCod, k.ClientComp, k.Target, k.TargetCod, k.TargetComp, k.Rounds, k.Size, k.ReadStyle, k.HandlerFl, k.SplitWrite, k.Wrapped)
 }
 
 type c16Result struct {
@@ -204,7 +237,15 @@ func c16Exec(k c16Config, prefix []int) (*sched.Run, *c16Result) {
 			return
 		}
 		r.Go("server", func() {
-			res.Panic = drive.Serve(tc, rec, rec, req, body)
+			if k.Wrapped {
+				bw := &c16BufferingWriter{inner: rec}
+				res.Panic = drive.Serve(http.HandlerFunc(func(w http.ResponseWriter, rq *http.Request) {
+					tc.ServeHTTP(w, rq)
+					bw.Flush() // the middleware hands over what is left when its handler returns
+				}), bw, rec, req, body)
+			} else {
+				res.Panic = drive.Serve(tc, rec, rec, req, body)
+			}
 			res.Status = rec.Status
 		})
 		ccomp := wire.CompByName(k.ClientComp)
@@ -299,6 +340,10 @@ func c16Configs(tier string) []c16Config {
 										}
 										out = append(out, c16Config{Client: cf, Target: tf, ClientCod: codecs[0], TargetCod: codecs[1], ClientComp: cp.c, TargetComp: cp.t,
 											Rounds: n, Size: sz, ReadStyle: rs, HandlerFl: fl == 1, SplitWrite: sp == 1})
+										if rs == 0 && sp == 0 && sz == 300 {
+											out = append(out, c16Config{Client: cf, Target: tf, ClientCod: codecs[0], TargetCod: codecs[1], ClientComp: cp.c, TargetComp: cp.t,
+												Rounds: n, Size: sz, ReadStyle: rs, HandlerFl: fl == 1, SplitWrite: false, Wrapped: true})
+										}
 									}
 								}
 							}
@@ -316,7 +361,7 @@ func init() {
 		ID:    "C16",
 		Level: "model_checking",
 		Rule: "Strict ping-pong of n rounds between a client thread and a handler thread over the stream-mode transport (response bytes visible only when flushed, request frames only once written), for every pairing of streaming client form x streaming target x codec relation x compression relation " +
-			"x rounds x message size (0, 1, 300, 5000 bytes) x handler read style (exact ReadFull, byte-wise, 32 KiB buffer) x handler flushing or not x envelope+payload in one or two writes. All schedules of the two threads are explored (DFS, no preemption bound; scheduling points at every body read, write, flush, pool and mutex operation). " +
+			"x rounds x message size (0, 1, 300, 5000 bytes) x handler read style (exact ReadFull, byte-wise, 32 KiB buffer) x handler flushing or not x envelope+payload in one or two writes; a subset also with ServeHTTP handed a buffering middleware writer that offers Unwrap(). All schedules of the two threads are explored (DFS, no preemption bound; scheduling points at every body read, write, flush, pool and mutex operation). " +
 			"A state is a scheduling decision point; a trace is one complete schedule of the real implementation. Non-trivial = distinct configuration that completed at least two rounds.",
 		Assume:  []string{"stream-mode transport never flushes on its own (real HTTP/2 flushes a full buffer; a lost flush leaves the tail of a message invisible in both)", "every explored trace is an execution of the implementation itself (no separate model)"},
 		Custom:  c16Custom,
